@@ -16,6 +16,7 @@ type compRef struct {
 }
 
 type modSet struct {
+	prefixes []string
 	all    bool
 	comps  []compRef
 	allocs []*ssa.Alloc
@@ -296,6 +297,7 @@ func (x *Exec) funcWrites(fr *Frame, fn *ssa.Function, params map[*ssa.Parameter
 	for _, c := range sub.comps {
 		m.addComp(c.key, c.sort)
 	}
+	m.prefixes = append(m.prefixes, sub.prefixes...)
 	// writes to the callee's own locals are irrelevant to the caller, except locals of the caller
 	// reached through pointer parameters
 	for _, a := range sub.allocs {
@@ -385,6 +387,14 @@ func (x *Exec) callWrites(fr *Frame, fn *ssa.Function, env *staticEnv, c *ssa.Ca
 func (x *Exec) contractWrites(env *staticEnv, callee *ssa.Function, fc *FuncContract, c *ssa.CallCommon, m *modSet) {
 	for _, pat := range fc.Assigns {
 		name, rest := splitAssign(pat)
+		if strings.HasPrefix(name, "g_") {
+			m.addComp("G:ghost."+name, "Int")
+			continue
+		}
+		if strings.HasPrefix(pat, "@") {
+			m.prefixes = append(m.prefixes, "S:"+x.resolveTypeKey(pat[1:]))
+			continue
+		}
 		var idx = -1
 		for i, p := range callee.Params {
 			if p.Name() == name {
